@@ -8,7 +8,8 @@ use wow_m2::chunks::material::{M2BlendMode, M2Material};
 use wow_m2::chunks::{M2Attachment, M2Event, M2InterpolationType, M2TransparencyAnimation, M2Vertex};
 use wow_m2::common::{C2Vector, C3Vector, M2Array, M2Vec};
 use wow_m2::header::M2Header;
-use wow_m2::model::{AttachmentAnimationRaw, AttachmentTrackType, BoneAnimationRaw, EventRaw, TrackType};
+use wow_m2::chunks::camera::M2Camera;
+use wow_m2::model::{AttachmentAnimationRaw, AttachmentTrackType, BoneAnimationRaw, CameraAnimationRaw, CameraTrackType, EventRaw, TrackType};
 use wow_m2::{M2Model, M2Version};
 
 const VERSIONS: [M2Version; 5] = [M2Version::Vanilla, M2Version::TBC, M2Version::WotLK, M2Version::Cataclysm, M2Version::MoP];
@@ -76,6 +77,33 @@ pub fn gen_model(rng: &mut Rng, version: M2Version) -> (M2Model, Vec<Tr>) {
         if animated { m.raw_data.attachment_animation_data.push(AttachmentAnimationRaw { attachment_index: k, track_type: AttachmentTrackType::Scale, interpolation_ranges: Vec::new(), timestamps: u32s(&(0..n as u32).map(|j| j * 300).collect::<Vec<_>>()), values: f32s(&(0..n).map(|_| f(rng)).collect::<Vec<_>>()), original_ranges_offset: 0, original_timestamps_offset: to, original_values_offset: vo }); }
     }
     m.raw_data.attachment_lookup_table = vec![0];
+    // cameras: one still, the others with any subset of their three tracks (position, target, roll) animated
+    let ncam = count(rng).min(3);
+    for k in 0..ncam {
+        let mut cam = M2Camera::new(0);
+        cam.camera_type = k as u32; cam.fov = f(rng); cam.far_clip = f(rng); cam.near_clip = f(rng);
+        cam.position_base = C3Vector { x: f(rng), y: f(rng), z: f(rng) };
+        cam.target_position_base = C3Vector { x: f(rng), y: f(rng), z: f(rng) };
+        if k > 0 {
+            for (ti, tt) in [CameraTrackType::Position, CameraTrackType::TargetPosition, CameraTrackType::Roll].into_iter().enumerate() {
+                if !rng.chance(2, 3) { continue; }
+                let n = rng.range(1, 4) as usize;
+                let (to, vo) = (0x6000 + 0x600 * k as u32 + 0x200 * ti as u32, 0x6100 + 0x600 * k as u32 + 0x200 * ti as u32);
+                let vs = if tt == CameraTrackType::Roll { 1 } else { 3 };
+                let ts = u32s(&(0..n as u32).map(|j| j * 250 + rng.below(200) as u32).collect::<Vec<_>>());
+                let vals = f32s(&(0..n * vs).map(|_| f(rng)).collect::<Vec<_>>());
+                fn blk<T: wow_m2::common::M2Parse>(n: usize, to: u32, vo: u32) -> M2AnimationBlock<T> {
+                    let mut t = M2AnimationTrack::<T>::default(); t.interpolation_type = M2InterpolationType::Linear;
+                    t.timestamps = M2Array::new(n as u32, to); t.values = M2Vec { array: M2Array::new(n as u32, vo), data: Vec::new() };
+                    M2AnimationBlock::new(t)
+                }
+                match tt { CameraTrackType::Position => cam.position_animation = blk::<C3Vector>(n, to, vo), CameraTrackType::TargetPosition => cam.target_position_animation = blk::<C3Vector>(n, to, vo), _ => cam.roll_animation = blk::<f32>(n, to, vo) }
+                m.raw_data.camera_animation_data.push(CameraAnimationRaw { camera_index: k, track_type: tt, interpolation_ranges: Vec::new(), timestamps: ts, values: vals, original_ranges_offset: 0, original_timestamps_offset: to, original_values_offset: vo });
+            }
+        }
+        m.cameras.push(cam);
+    }
+    m.raw_data.camera_lookup_table = (0..ncam as u16).collect();
     (m, tracks)
 }
 
@@ -100,6 +128,13 @@ fn canon(m: &M2Model, bytes: &[u8]) -> Vec<(String, String)> {
         ("preserved event times".into(), format!("{:?}", m.raw_data.event_data.iter().map(|e| (e.event_index, hex(&e.timestamps))).collect::<Vec<_>>())),
         ("attachments".into(), format!("{:?}", m.attachments.iter().map(|a| (a.id, a.bone_index, a.position.x.to_bits(), a.position.y.to_bits(), a.position.z.to_bits(), hex(&slice(bytes, a.scale_animation.track.timestamps.offset, a.scale_animation.track.timestamps.count as usize * 4)), hex(&slice(bytes, a.scale_animation.track.values.array.offset, a.scale_animation.track.values.array.count as usize * 4)))).collect::<Vec<_>>())),
         ("preserved attachment key frames".into(), format!("{:?}", m.raw_data.attachment_animation_data.iter().map(|a| (a.attachment_index, hex(&a.timestamps), hex(&a.values))).collect::<Vec<_>>())),
+        ("cameras".into(), format!("{:?}", m.cameras.iter().map(|c| { let k = |ts: &M2Array<u32>, vs: (u32, u32), w: usize| format!("{}/{}", hex(&slice(bytes, ts.offset, ts.count as usize * 4)), hex(&slice(bytes, vs.1, vs.0 as usize * w)));
+            (c.camera_type, c.fov.to_bits(), c.far_clip.to_bits(), c.near_clip.to_bits(), (c.position_base.x.to_bits(), c.position_base.y.to_bits(), c.position_base.z.to_bits()), (c.target_position_base.x.to_bits(), c.target_position_base.y.to_bits(), c.target_position_base.z.to_bits()),
+             k(&c.position_animation.track.timestamps, (c.position_animation.track.values.array.count, c.position_animation.track.values.array.offset), 12),
+             k(&c.target_position_animation.track.timestamps, (c.target_position_animation.track.values.array.count, c.target_position_animation.track.values.array.offset), 12),
+             k(&c.roll_animation.track.timestamps, (c.roll_animation.track.values.array.count, c.roll_animation.track.values.array.offset), 4)) }).collect::<Vec<_>>())),
+        ("preserved camera key frames".into(), format!("{:?}", m.raw_data.camera_animation_data.iter().map(|a| (a.camera_index, a.track_type, hex(&a.timestamps), hex(&a.values))).collect::<Vec<_>>())),
+        ("camera lookup".into(), format!("{:?}", m.raw_data.camera_lookup_table)),
     ]
 }
 
@@ -111,6 +146,9 @@ fn expected(m: &M2Model, tracks: &[Tr]) -> Vec<(String, String)> {
     let mut v = canon(m, &[]);
     v[2].1 = format!("{:?}", m.bones.iter().enumerate().map(|(i, b)| (b.bone_id, b.parent_bone, b.flags.bits(), (b.pivot.x.to_bits(), b.pivot.y.to_bits(), b.pivot.z.to_bits()), tr(i, TrackType::Translation, &b.translation), tr(i, TrackType::Scale, &b.scale))).collect::<Vec<_>>());
     v[8].1 = format!("{:?}", m.events.iter().enumerate().map(|(i, e)| (e.identifier, e.data, e.bone_index, m.raw_data.event_data.iter().find(|r| r.event_index == i).map(|r| hex(&r.timestamps)).unwrap_or_else(|| "-".into()))).collect::<Vec<_>>());
+    v[12].1 = format!("{:?}", m.cameras.iter().enumerate().map(|(i, c)| { let k = |tt: CameraTrackType| m.raw_data.camera_animation_data.iter().find(|r| r.camera_index == i && r.track_type == tt).map(|r| format!("{}/{}", hex(&r.timestamps), hex(&r.values))).unwrap_or_else(|| "-/-".into());
+            (c.camera_type, c.fov.to_bits(), c.far_clip.to_bits(), c.near_clip.to_bits(), (c.position_base.x.to_bits(), c.position_base.y.to_bits(), c.position_base.z.to_bits()), (c.target_position_base.x.to_bits(), c.target_position_base.y.to_bits(), c.target_position_base.z.to_bits()),
+             k(CameraTrackType::Position), k(CameraTrackType::TargetPosition), k(CameraTrackType::Roll)) }).collect::<Vec<_>>());
     v[10].1 = format!("{:?}", m.attachments.iter().enumerate().map(|(i, a)| { let r = m.raw_data.attachment_animation_data.iter().find(|r| r.attachment_index == i); (a.id, a.bone_index, a.position.x.to_bits(), a.position.y.to_bits(), a.position.z.to_bits(), r.map(|r| hex(&r.timestamps)).unwrap_or_else(|| "-".into()), r.map(|r| hex(&r.values)).unwrap_or_else(|| "-".into())) }).collect::<Vec<_>>());
     v
 }
